@@ -66,8 +66,13 @@ def make_plan(ctx):
             for i, r in enumerate(brow):
                 plan.append("m2 %s %s 0 %s %s - -" % (op, t, r, brow[(i * 7 + 3) % len(brow)]))
         for r in rows[:: ctx.q(40, 8)]:
-            for n in (0, 1, -1, 2, 7, -13, 1 << 30, -(1 << 30), (1 << 31) - 1):
+            for n in (0, 1, -1, 2, 7, -13, 1 << 30, -(1 << 30), (1 << 31) - 1, -(1 << 31), -(1 << 31) + 1):
                 plan.append("m1i ipow %s %d %s - - -" % (t, n, r))
+            # the other exponent types of the generic loop, with the extreme values of each (K_Ipow: at most `bits` iterations, also for MIN)
+            for op, ns in (("ipow8", (-128, -127, 127, -1, 5)), ("ipow16", (-32768, -32767, 32767, -3)), ("ipow64", (-(1 << 63), -(1 << 63) + 1, (1 << 63) - 1, -(1 << 40), 1 << 62)),
+                           ("ipowu32", ((1 << 32) - 1, 1 << 31, 3)), ("ipowu64", ((1 << 63) - 1, 1 << 62, 9))):
+                for n in ns:
+                    plan.append("m1i %s %s %d %s - - -" % (op, t, n, r))
             plan.append("m1x2 sincos %s 0 %s - - -" % (t, r))
     return plan
 
@@ -100,6 +105,13 @@ def project(events):
 
 def body(ctx):
     ctx.model("K_Gamma.tla", timeout=900)
+    # the square-and-multiply loop of detail::ipow for a signed and an unsigned exponent type (every exponent of a 12-bit type: bound, result, termination)
+    ctx.model("K_Ipow.tla", timeout=600)
+    ctx.model("K_Ipow.tla", "K_IpowUnsigned.cfg", timeout=600)
+    r = vf.tlc_model("K_Ipow.tla", "K_IpowShift.cfg", timeout=600)
+    ctx.cov["model_runs"].append(dict(cfg="K_IpowShift.cfg (b >>= 1 instead of b /= 2, regression of the model: must be violated)", ok=not r["ok"], distinct=r["distinct"], generated=r["generated"], wall_s=round(r["wall"], 1)))
+    if r["ok"]:
+        raise vf.InfraError("K_Ipow with an arithmetic shift no longer exhibits the endless run at b = -1: the loop model lost its teeth")
     r = vf.tlc_model("K_Gamma.tla", "K_GammaAsShipped.cfg", timeout=900)
     ctx.cov["model_runs"].append(dict(cfg="K_GammaAsShipped.cfg (regression of the model: must be violated)", ok=not r["ok"], distinct=r["distinct"], generated=r["generated"], wall_s=round(r["wall"], 1)))
     if r["ok"]:
